@@ -3,12 +3,12 @@
 //! Obstacles are metric shapes defined with the space's own `distance`, so one generator serves
 //! all six spaces; boxes and walls act on the leading real-vector coordinates.
 
-use crate::spaces::{Comp, Raw};
+use crate::spaces::{Comp, HMetric, Raw};
 use crate::spec::{Obstacle, WorldSpec};
 
 pub enum TObst<R: Raw> {
-    Ball { c: R::StateType, r: f64 },
-    Shell { c: R::StateType, r_in: f64, r_out: f64, door: Option<(R::StateType, f64)> },
+    Ball { c: R::StateType, cf: Vec<f64>, r: f64 },
+    Shell { c: R::StateType, cf: Vec<f64>, r_in: f64, r_out: f64, door: Option<(R::StateType, Vec<f64>, f64)> },
     Box { lo: Vec<f64>, hi: Vec<f64> },
     Wall { axis: usize, lo: f64, hi: f64, gap: Option<(usize, f64, f64)> },
     CompBall { off: usize, kind: Comp, c: Vec<f64>, r: f64 },
@@ -18,21 +18,27 @@ pub enum TObst<R: Raw> {
 pub struct TypedWorld<R: Raw> {
     pub obstacles: Vec<TObst<R>>,
     needs_coords: bool,
+    /// Some: metric shapes are measured with the harness's own metric on flat states
+    hm: Option<HMetric>,
 }
 
 impl<R: Raw> TypedWorld<R> {
-    pub fn new(lay: &[Comp], w: &WorldSpec) -> Self {
-        let mut needs_coords = false;
+    pub fn new(spec: &crate::spec::SpaceSpec, w: &WorldSpec) -> Self {
+        let lay_v = crate::spaces::layout(spec);
+        let lay: &[Comp] = &lay_v;
+        let hm = if w.harness_metric { Some(HMetric::new(spec)) } else { None };
+        let mut needs_coords = hm.is_some();
         let obstacles = w
             .obstacles
             .iter()
             .map(|o| match o {
-                Obstacle::Ball { c, r } => TObst::Ball { c: R::dec(lay, c), r: *r },
+                Obstacle::Ball { c, r } => TObst::Ball { c: R::dec(lay, c), cf: c.clone(), r: *r },
                 Obstacle::Shell { c, r_in, r_out, door } => TObst::Shell {
                     c: R::dec(lay, c),
+                    cf: c.clone(),
                     r_in: *r_in,
                     r_out: *r_out,
-                    door: door.as_ref().map(|(dc, dr)| (R::dec(lay, dc), *dr)),
+                    door: door.as_ref().map(|(dc, dr)| (R::dec(lay, dc), dc.clone(), *dr)),
                 },
                 Obstacle::Box { lo, hi } => {
                     needs_coords = true;
@@ -52,7 +58,14 @@ impl<R: Raw> TypedWorld<R> {
                 }
             })
             .collect();
-        TypedWorld { obstacles, needs_coords }
+        TypedWorld { obstacles, needs_coords, hm }
+    }
+
+    fn dist(&self, space: &R, c: &R::StateType, cf: &[f64], s: &R::StateType, coords: &[f64]) -> f64 {
+        match &self.hm {
+            Some(h) => h.d(cf, coords),
+            None => space.distance(c, s),
+        }
     }
 
     pub fn valid(&self, space: &R, s: &R::StateType) -> bool {
@@ -62,12 +75,12 @@ impl<R: Raw> TypedWorld<R> {
         }
         for o in &self.obstacles {
             let inside = match o {
-                TObst::Ball { c, r } => space.distance(c, s) < *r,
-                TObst::Shell { c, r_in, r_out, door } => {
-                    let d = space.distance(c, s);
+                TObst::Ball { c, cf, r } => self.dist(space, c, cf, s, &coords) < *r,
+                TObst::Shell { c, cf, r_in, r_out, door } => {
+                    let d = self.dist(space, c, cf, s, &coords);
                     d > *r_in
                         && d < *r_out
-                        && !door.as_ref().is_some_and(|(dc, dr)| space.distance(dc, s) < *dr)
+                        && !door.as_ref().is_some_and(|(dc, dcf, dr)| self.dist(space, dc, dcf, s, &coords) < *dr)
                 }
                 TObst::Box { lo, hi } => {
                     lo.iter().zip(hi).enumerate().all(|(i, (l, h))| coords[i] > *l && coords[i] < *h)
